@@ -104,7 +104,7 @@ class World(BaseWorld):
             if k == 'transform':
                 ops.append({'op': 'transform', 'array': ro.choice(ARRAYS)})
             elif k == 'resolve':
-                ops.append({'op': 'resolve', 'guess': ro.choice(['x', 'x', 'res'])})
+                ops.append({'op': 'resolve', 'guess': ro.choice(['x', 'x', 'res']), 'abort_at': ro.choice([None, None, None, 0, 1, 5])})
             else:
                 o = {'op': 'calc', 'fn': k}
                 o.update(ro.choice(CALCS[k]))
@@ -296,6 +296,16 @@ class World(BaseWorld):
                 gS = np.copy(S.x) if op['guess'] == 'x' else np.copy(S.minimize_result.x)
                 identical_inputs = np.array_equal(gP, gS) and np.array_equal(np.asarray(P.omega.data), np.asarray(S.omega.data))
                 outP = outS = None
+                if op.get('abort_at') is not None:
+                    # a first attempt is interrupted by the user after k callbacks (object left mid-iteration), then repeated
+                    srP.abort_next = int(op['abort_at'])
+                    try:
+                        self.solve(pp, P, srP, user, np.copy(gP))
+                    except simroot.SolveAborted:
+                        ctx.probe('resolve_aborted_then_retried')
+                    except Exception:
+                        pass
+                    srP.abort_next = None
                 try:
                     rP = self.solve(pp, P, srP, user, gP)
                 except Violation:
@@ -434,7 +444,8 @@ class World(BaseWorld):
     def expected_probes(self, tier):
         p = ['calc_with_totalCorr_fourier', 'calc_with_directCorr_real', 'calc_with_omega_real', 'same_fn_twice', 'spinodal_then_other',
              'rank3', 'rank2', 'resolve', 'resolve_after_calc', 'solve_with_stale_last_eval', 'rank3_spinodal_twice',
-             'transform_totalCorr', 'transform_directCorr', 'transform_omega'] + ['calc_' + f for f in sorted(CALCS)]
+             'transform_totalCorr', 'transform_directCorr', 'transform_omega', 'resolve_aborted_then_retried', 'resolve_inputs_bit_identical',
+             'resolve_inputs_differ_by_rounding'] + ['calc_' + f for f in sorted(CALCS)]
         return p
 
     def rule(self):
@@ -442,7 +453,7 @@ class World(BaseWorld):
                 'under the simulator-owned root-finder seam (real | buggify | scripted), then a history of 2-25 ops over {pair_correlation, '
                 'structure_factor(normalize T|F), pmf, second_virial(extrapolate T|F), chi(T|F), spinodal_condition(T|F), '
                 'solvation_potential(HNC|PY), user transform of totalCorr|directCorr|omega to the other space, re-solve from own x / '
-                'minimize_result.x while omega is flagged Fourier}. After every op: the return value equals the same call on a deep copy of a '
+                'minimize_result.x while omega is flagged Fourier (optionally preceded by an attempt the user aborts after k callbacks)}. After every op: the return value equals the same call on a deep copy of a '
                 'shadow object (same System, same solve chain, nothing else) within 1e-8*max(1,|ref|) + 100*(measured sensitivity of the result '
                 'to a 1e-11 relative perturbation of the stored arrays); omega/totalCorr/directCorr of the object equal the shadow\'s after being '
                 'brought to the same space with the harness\' own sine matrices; after every solve P.x == res.x and the stored arrays are those '
